@@ -78,6 +78,32 @@ class PybindWrapper:
         else:
             return ''
 
+    @staticmethod
+    def _cpp_string_literal(text: str) -> str:
+        """
+        Write `text` as a C++ string literal on a single line.
+
+        `repr` turns newlines, backslashes and unprintable characters into
+        escape sequences, all of which C++ reads the same way except `\\xNN`:
+        a C++ hex escape has no length limit, so `\\x01` followed by `a` would
+        be read as the single character `\\x01a`. Those are rewritten as
+        three-digit octal escapes (ASCII control characters) or universal
+        character names (the rest).
+        """
+
+        def bounded(match):
+            escape = match.group(0)
+            if escape[1] != 'x':
+                return escape
+            code = int(escape[2:], 16)
+            return '\\%03o' % code if code < 0x80 else '\\u%04x' % code
+
+        # Every backslash in the repr starts an escape sequence: consume
+        # them one by one so that an escaped backslash is never mistaken
+        # for the start of the next one.
+        body = re.sub(r'\\(x[0-9a-f]{2}|.)', bounded, repr(text)[1:-1])
+        return '"' + body.replace('"', r'\"') + '"'
+
     def _method_args_signature(self, args):
         """Generate the argument types and names as per the method signature."""
         cpp_types = args.to_cpp()
@@ -281,10 +307,11 @@ class PybindWrapper:
                    suffix=suffix,
                    # Try to get the function's docstring from the Doxygen XML.
                    # If extract_docstring errors or fails to find a docstring, it just prints a warning.
-                   # The incantation repr(...)[1:-1].replace('"', r'\"') replaces newlines with \n 
-                   # and " with \" so that the docstring can be put into a C++ string on a single line.
-                   docstring=', "' + repr(self.xml_parser.extract_docstring(self.xml_source, cpp_class, cpp_method, method.args.names()))[1:-1].replace('"', r'\"') + '"' 
-                       if self.xml_source != "" else "",
+                   docstring=', ' + self._cpp_string_literal(
+                       self.xml_parser.extract_docstring(
+                           self.xml_source, cpp_class, cpp_method,
+                           method.args.names()))
+                   if self.xml_source != "" else "",
                ))
 
         # Create __repr__ override
